@@ -61,6 +61,9 @@ pub struct Ctx {
     pub info: Mutex<BTreeMap<String, J>>,
     caps_hit: Mutex<Vec<String>>,
     panics: Mutex<Vec<String>>,
+    known: Vec<Known>,
+    /// known-finding fingerprint -> (first matching violation fingerprint, occurrences)
+    known_hits: Mutex<BTreeMap<String, (String, u64)>>,
 }
 
 pub fn hash_of<T: Hash>(t: &T) -> u64 {
@@ -101,6 +104,8 @@ impl Ctx {
             info: Mutex::new(BTreeMap::new()),
             caps_hit: Mutex::new(Vec::new()),
             panics: Mutex::new(Vec::new()),
+            known: load_known(id),
+            known_hits: Mutex::new(BTreeMap::new()),
         }
     }
 
@@ -155,6 +160,14 @@ impl Ctx {
     pub fn violation(&self, fingerprint: impl Into<String>, what: impl Into<String>, replay: J) {
         self.violation_count.fetch_add(1, Ordering::Relaxed);
         let fingerprint = fingerprint.into();
+        // listed (open) known findings are tallied separately so that they can never crowd an
+        // unlisted violation out of the report
+        if let Some(k) = self.known.iter().find(|k| k.status == "open" && fingerprint.starts_with(&k.fingerprint)) {
+            let mut h = self.known_hits.lock().unwrap();
+            let e = h.entry(k.fingerprint.clone()).or_insert_with(|| (fingerprint.clone(), 0));
+            e.1 += 1;
+            return;
+        }
         let mut v = self.violations.lock().unwrap();
         // keep the first occurrence of each fingerprint, and at most 25 in total
         if v.len() < 25 && !v.iter().any(|x| x.fingerprint == fingerprint) {
@@ -186,17 +199,17 @@ impl Ctx {
 
     /// Write evidence, print verdict lines, return process exit code.
     pub fn finish(self, rule: &str, bounds: J, assumptions: &[&str], exhaustive: bool) -> i32 {
-        let known = load_known(self.id);
         let viols = self.violations.lock().unwrap().clone();
         let mut unlisted = 0;
         let mut listed = 0;
         let _ = std::fs::create_dir_all(format!("{}/replays/{}", verif_root(), self.id));
+        for (kfp, (first, n)) in self.known_hits.lock().unwrap().iter() {
+            let what = self.known.iter().find(|k| &k.fingerprint == kfp).map(|k| k.what.clone()).unwrap_or_default();
+            println!("KNOWN-FINDING: property={} {} [{} occurrence(s), first: {}]", self.id, what, n, first);
+            listed += 1;
+        }
         for v in &viols {
-            let k = known.iter().find(|k| k.status == "open" && v.fingerprint.starts_with(&k.fingerprint));
-            if let Some(k) = k {
-                println!("KNOWN-FINDING: property={} {} [{}]", self.id, k.what, v.fingerprint);
-                listed += 1;
-            } else {
+            {
                 let path = format!("{}/replays/{}/{:016x}.json", verif_root(), self.id, fnv(&v.fingerprint));
                 let doc = json!({"property": self.id, "fingerprint": v.fingerprint, "what": v.what, "case": v.replay});
                 let _ = std::fs::write(&path, serde_json::to_string_pretty(&doc).unwrap());
